@@ -178,6 +178,52 @@ class Normalize(Family):
                           {"i": i, "j": j})
 
 
+
+class NormalizeFromState(Family):
+    name = "normalize-from-arbitrary-state"
+    doc = ("Weaver.normalize_x/_y from an ARBITRARY state (working series with its own length, values and - for one kind - its own "
+           "range, different from the reference's and the original's): the series get() returns goes min -> min_val, max -> max_val")
+    query_timeout_ms = 30000
+
+    def configs(self, tier):
+        # abscissae are ordered (one path); values are not: min/max over n symbolic values forks over their orderings
+        Ls = (2, 3) if tier == "quick" else (2, 3, 4)
+        return [{"L": L, "kind": k, "axis": a} for L in Ls for k in ("reshaped", "reshaped-other-range", "gridded") for a in ("x", "y")
+                if a == "x" or L == 2 or (tier != "quick" and L == 3 and k == "gridded")]
+
+    def run(self, ctx, inst, L, kind, axis):
+        from checks.weaverfam import make_state
+        st = make_state(ctx, L, kind)
+        w = st.w
+        vs = list(w.x) if axis == "x" else list(w.y)
+        n = len(vs)
+        lo, hi = ctx.real("lo"), ctx.real("hi")
+        ctx.assume(ctx.lt(lo, hi))
+        # precondition: no series the operation renormalises is constant
+        for series in ((w.x, w.reference_x, w.original_x) if axis == "x" else (w.y, w.reference_y, w.original_y)):
+            sv = list(series)
+            ctx.assume(ctx.Or(*[ctx.ne(sv[i], sv[0]) for i in range(1, len(sv))]))
+        x_before = list(w.x)
+        (w.normalize_x if axis == "x" else w.normalize_y)(lo, hi)
+        gx, gy = w.get()
+        out = list(gx) if axis == "x" else list(gy)
+        ctx.note("out", gx if axis == "x" else gy)
+        ctx.claim("normalize:length-kept", len(out) == n and len(gx) == len(gy))
+        V = [ctx.exact(v) for v in vs] if not ctx.symbolic else vs
+        for i in range(n):
+            is_min = ctx.And(*[V[i] <= V[j] for j in range(n)])
+            is_max = ctx.And(*[V[i] >= V[j] for j in range(n)])
+            ctx.claim("min->min_val", ctx.Implies(is_min, ctx.eq(out[i], lo)), {"i": i, "kind": kind, "axis": axis})
+            ctx.claim("max->max_val", ctx.Implies(is_max, ctx.eq(out[i], hi)), {"i": i, "kind": kind, "axis": axis})
+        for i in range(n - 1):
+            ctx.claim("order-preserved", ctx.Implies(V[i] < V[i + 1], ctx.lt(out[i], out[i + 1])), {"i": i})
+            for j in range(i + 1, n - 1):
+                ctx.claim("relative-spacing-preserved",
+                          ctx.eq((out[i + 1] - out[i]) * (vs[j + 1] - vs[j]), (out[j + 1] - out[j]) * (vs[i + 1] - vs[i])), {"i": i, "j": j})
+        if axis == "y":
+            for i in range(n):
+                ctx.claim("other-axis-untouched", ctx.eq(gx[i], x_before[i]), {"i": i})
+
 META = {
     "explanation": "process.trend/linear_trend/normalize and the Weaver's trend, shift_*, scale_*, normalize_* executed on "
                    "symbolic series. The trend function is an uninterpreted function (one fresh solver real per "
@@ -195,4 +241,4 @@ if __name__ == "__main__":
     ap = argparse.ArgumentParser()
     ap.add_argument("--tier", default="quick")
     a = ap.parse_args()
-    sys.exit(run_check("C14", "pointwise maps", [Trend(), ShiftScale(), Normalize()], a.tier, META))
+    sys.exit(run_check("C14", "pointwise maps", [Trend(), ShiftScale(), Normalize(), NormalizeFromState()], a.tier, META))
